@@ -16,7 +16,7 @@ func init() {
 			"oracle: result carries the requested mapping; source observation unchanged; zero weight bitwise kept; |W'-W| <= 1e-10 W; no bin of weight <= 0 and Min/MaxIndex are the extreme positive bins; per side and for every target-bin boundary t the interval transport (Hall) condition: weight of result bins entirely below t lies between the weight of source bins ending at or below t and the weight of source bins starting below t (up to slivers); " +
 			"every quantile y satisfies y/(s*Value(i)) in [(1-a2)/(1+a1),(1+a2)/(1-a1)] for a source bin i whose cumulative interval is within 1 of q(W-1); identity conversion gives an equal, independent copy; exact statistics: count unchanged, min/max = fl(extreme*s), sum within the rounding bound. Non-trivial = bin-aligned factor, different kinds, or both signs; distinct = hash of (mappings, scale, items).",
 		Cases:     core.Scale(20000, 500000),
-		Mandatory: []string{"oracle.transport_checks", "oracle.quantile_checks", "oracle.source_unchanged", "oracle.nonpositive_bin_checks", "scale.bin_aligned", "scale.one", "identity.cases", "exact.rescale_checks", "pair.log->cub", "pair.cub->lin", "pair.lin->log", "target.collapsing"},
+		Mandatory: []string{"oracle.transport_checks", "oracle.quantile_checks", "oracle.source_unchanged", "oracle.nonpositive_bin_checks", "scale.bin_aligned", "scale.one", "identity.cases", "exact.rescale_checks", "pair.log->cub", "pair.cub->lin", "pair.lin->log", "target.collapsing", "source.reweighted_before_conversion"},
 		Assumptions: []string{
 			"boundary classification tolerance 1e-9 relative, weight slivers 1e-9*W: a defect moving less than that is invisible",
 			"values within a factor gamma^2*4 of either mapping's range ends are not sent (the property says 'well inside')",
@@ -124,6 +124,20 @@ func runC17(c *core.Ctx) {
 		md.Add(it.V, it.W)
 	}
 
+	if r.P(0.3) && n > 0 {
+		// the source has been reweighted before the conversion (dyadic factor: the model stays exact)
+		f := []float64{0.25, 0.5, 2, 3, 8}[r.Intn(5)]
+		if err := src.I().Reweight(f); err != nil {
+			c.Failf("Reweight.error", "Reweight(%v): %v", f, err)
+			return
+		}
+		md.Scale(f)
+		for i := range items {
+			items[i].W *= f
+		}
+		c.Count("source.reweighted_before_conversion", 1)
+		c.Logf("source.Reweight(%v)", f)
+	}
 	// scale factor
 	var scale float64
 	aligned := false
